@@ -364,6 +364,15 @@ where
                 if di == 0 {
                     // res = pmat * ai_dft
                     self.vmp_apply_dft_to_dft(res, &ai_dft, pmat, 0, scratch_2);
+                    // The following digits accumulate into limbs past the shortened size: they must start
+                    // from zero (res may be uninitialised scratch memory).
+                    let written: usize = res.size();
+                    res.set_size(res.max_size());
+                    for j in written..res.size() {
+                        for col in 0..cols_out {
+                            res.zero_at(col, j);
+                        }
+                    }
                 } else {
                     // Overwrite tmp with shifted product, then fold into res.
                     // This avoids scattered read-add-write on the res DFT buffer.
